@@ -105,6 +105,25 @@ def execute(w, ins):
         w.cur_info['expected_raise'] = True
         w.stats['alloc_fault'] += 1
         w.stats['alloc_fault:' + ins['op']] += 1
+        # was a node needed at all?  The same call is made once more with the
+        # limit lifted: if it now succeeds without the manager growing, the
+        # refusal had no reason (not for one-shot iterator arguments, which
+        # the first attempt has consumed)
+        lc = w.last_call
+        import collections.abc as _cabc
+        if limit is not None and lc is not None and not any(
+                isinstance(x, _cabc.Iterator) for x in list(lc[1]) + list(lc[2].values())):
+            limit[0].max_nodes = limit[1]
+            w.alloc_armed = False
+            before = set(limit[0]._succ)
+            ok2, v2 = ops.call(w, lc[0], *lc[1], **lc[2])
+            del v2
+            grew = bool(set(limit[0]._succ) - before)
+            lc = None
+            w.cur_info['raised'] = 'RuntimeError'
+            if ok2 and not grew:
+                w.fail('refused_without_need', f'{ins["op"]} raised "full" under a node limit, but the same call needs no new node', [owner])
+            w.stats['alloc_fault_needed_a_node'] += 1
     finally:
         if limit is not None:
             limit[0].max_nodes = limit[1]
